@@ -39,6 +39,7 @@ PROBES = [
     "clock_crossed_midnight_between_ops", "peer_measured_text", "pdf_built",
     "torn_write_left_partial_file", "four_slots", "construct_raised_both",
     "export_raised_both", "mixed_directions", "labella_options_differ",
+    "export_multilayer", "export_ge_3_layers", "export_with_lineSpacing",
 ]
 
 RULE = (
@@ -98,13 +99,22 @@ def gen_spec(rng, slot_index, swarm):
         base_year = 2010
     base = datetime.datetime(base_year, rng.randrange(1, 13), rng.randrange(1, 28))
     span_days = rng.choice([0.5, 3, 3, 40, 40, 40, 400, 400, 400, 4000, 4000])
+    clustered = rng.random() < 0.4
+    centres = [rng.random() for _ in range(rng.choice([1, 2, 3]))]
     items = []
     for i in range(n):
         it = {}
+        u = rng.random()
+        if clustered and i > 0:
+            # few distinct neighbourhoods (plus one far item to keep the domain wide):
+            # such layouts need several layers and put stubs next to each other
+            u = min(1.0, max(0.0, rng.choice(centres) + rng.choice([0, 0, 0.002, -0.004, 0.01])))
+        elif clustered:
+            u = rng.choice([0.0, 1.0])
         if kind == "n":
-            it["time"] = ["n", rng.choice([rng.randrange(0, 1000), rng.randrange(0, 4000) / 4.0]) + 100 * slot_index]
+            it["time"] = ["n", (int(u * 1000) if rng.random() < 0.7 else int(u * 4000) / 4.0) + 100 * slot_index]
         else:
-            t = base + datetime.timedelta(seconds=int(rng.random() * span_days * 86400))
+            t = base + datetime.timedelta(seconds=int(u * span_days * 86400))
             if kind == "dt":
                 it["time"] = ["dt", t.isoformat()]
             elif kind == "d":
@@ -154,6 +164,8 @@ def gen_spec(rng, slot_index, swarm):
             lab["nodeSpacing"] = rng.choice([0, 3, 8])
         if rng.random() < 0.15:
             lab["stubWidth"] = rng.choice([1, 4])
+        if rng.random() < 0.25:
+            lab["lineSpacing"] = rng.choice([0, 2, 6, 12])
         opts["labella"] = lab
     if rng.random() < 0.2 and kind in ("dt", "d"):
         a = base - datetime.timedelta(days=rng.randrange(0, 30))
@@ -322,6 +334,10 @@ def _do_export(tl, spec, fs, op):
         out["ret"] = ["ok", _text(doc)]
     except Exception as e:
         out["ret"] = ["raise", type(e).__name__]
+    try:
+        out["layers"] = 1 + max(n.layerIndex for n in tl.nodes) if tl.nodes else 0
+    except Exception:
+        out["layers"] = 0
     if op[0] == "export_file":
         path = op[2]
         out["file"] = _text(fs.files[path]) if path in fs.files else None
@@ -458,6 +474,12 @@ def _run(plan):
                         bump("fault:peer_fail:fired")
                 if res.get("pdf"):
                     bump("probe:pdf_built")
+                if res.get("layers", 0) >= 2:
+                    bump("probe:export_multilayer")
+                if res.get("layers", 0) >= 3:
+                    bump("probe:export_ge_3_layers")
+                if spec["options"].get("labella", {}).get("lineSpacing") is not None:
+                    bump("probe:export_with_lineSpacing")
                 window = foreign[i]
                 if window:
                     bump("fault:interleave:fired")
